@@ -202,11 +202,9 @@ def run(prop: str, tier: str, seed: int) -> int:
                     ttp_cases.append(("C08", {"id": rec["id"], **lo.header(), "plans": [lo.record(plan, [])]}))
                 rep.family("ttp rls", 1, 1)
         from .c09 import eval_case, mods as qmods
-        for k, nm in enumerate(["nug12", "chr12a", "tai10a"][: (2 if tier == "quick" else 3)]):
-            try:
-                qinst = qmods()["Instance"].from_resource(nm)
-            except ValueError:
-                continue
+        qnames = [q for q in qmods()["Instance"].list_resources() if q in ("nug12", "chr12a", "had12", "scr12", "rou12")]
+        for k, nm in enumerate(qnames[: (2 if tier == "quick" else 4)]):
+            qinst = qmods()["Instance"].from_resource(nm)
 
             def make(qinst=qinst):
                 space = Permutations.standard(qinst.n)
